@@ -15,7 +15,7 @@ VERIF = os.path.dirname(HERE)
 sys.path.insert(0, VERIF)
 
 from sim import findings, minimise  # noqa: E402
-from sim.pool import Pool, WorkerDied  # noqa: E402
+from sim.pool import DEFAULT_PROFILE, TWIN_PROFILE, Pool, WorkerDied, env_of, group_for_env  # noqa: E402
 from sim.scenario import splitmix64  # noqa: E402
 
 TIERS = {
@@ -24,7 +24,8 @@ TIERS = {
         "runs": 3000,
         "twin_share": 0.5,
         "echo_share": 0.02,
-        "cfg": {"steps": [16, 24, 40], "clients": [1, 2, 3], "fault_free_share": 0.25},
+        "cfg": {"steps": [16, 24, 40], "clients": [1, 2, 3], "fault_free_share": 0.25,
+                "marathon": {"share_of_T9": 0.03, "steps": 4000}},
         "batch_cap_s": 600,
         "minimise_budget_s": 180,
     },
@@ -33,7 +34,8 @@ TIERS = {
         "runs": 150000,
         "twin_share": 1.0,
         "echo_share": 0.01,
-        "cfg": {"steps": [24, 40, 60, 80], "clients": [1, 2, 3, 4], "fault_free_share": 0.2},
+        "cfg": {"steps": [24, 40, 60, 80], "clients": [1, 2, 3, 4], "fault_free_share": 0.2,
+                "marathon": {"share_of_T9": 0.01, "steps": 12000}},
         "batch_cap_s": 3 * 3600,
         "minimise_budget_s": 480,
     },
@@ -99,7 +101,7 @@ class Aggregate:
                     self.harness_errors.append({"seed": res.get("run_seed"), "role": role, "error": res.get("error")})
                 return
             self.digests[role][res["run_seed"]] = (res["log_digest"][:16], res["ops_digest"][:16])
-            self.hashseeds[role][res["run_seed"]] = res.get("hashseed")
+            self.hashseeds[role][res["run_seed"]] = res.get("env") or env_of(res.get("hashseed") or 1001)
             self.run_wall += res.get("wall_s", 0)
             self.max_run_wall = max(self.max_run_wall, res.get("wall_s", 0))
             if role != "A":
@@ -170,9 +172,28 @@ def first_divergence(ta, tb):
     return "oracle", -1
 
 
+def attribute_env(repo, envs, sc, ops):
+    """Which single difference between the two environments reproduces the disagreement?"""
+    out = {}
+    for dim in ("hashseed", "tz", "opt"):
+        if envs[0].get(dim) == envs[1].get(dim):
+            continue
+        other = dict(envs[0])
+        other[dim] = envs[1][dim]
+        p2 = Pool(repo, {"X": group_for_env(envs[0]), "Y": group_for_env(other)})
+        try:
+            ra = p2.submit({"t": "replay", "scenario": sc, "ops": ops}, "X").result()
+            rb = p2.submit({"t": "replay", "scenario": sc, "ops": ops}, "Y").result()
+        finally:
+            p2.close()
+        if "log_digest" in ra and "log_digest" in rb:
+            out[dim] = ra["log_digest"] != rb["log_digest"]
+    return out
+
+
 def minimise_i5(repo, hs, sc, ops):
-    """Shrink a history on which two interpreters (hash seeds hs) disagree."""
-    p2 = Pool(repo, {"X": (1, hs[0]), "Y": (1, hs[1])})
+    """Shrink a history on which two interpreters (environments hs) disagree."""
+    p2 = Pool(repo, {"X": group_for_env(hs[0]), "Y": group_for_env(hs[1])})
     try:
         def differ(sc_, ops_):
             fa = p2.submit({"t": "replay", "scenario": sc_, "ops": ops_}, "X")
@@ -228,9 +249,9 @@ def batch(args):
     total = n_runs + len(twin_seeds) + len(echo_seeds)
     nb = max(1, min(args.workers - 1, int(round(args.workers * len(twin_seeds) / total)))) if args.workers > 1 else 0
     na = max(1, args.workers - nb)
-    groups = {"A": (na, 1001)}
+    groups = {"A": (na, 1001, DEFAULT_PROFILE)}
     if nb:
-        groups["B"] = (nb, 7001)
+        groups["B"] = (nb, 7001, TWIN_PROFILE)
     print("C18 %s: seed=%d runs=%d twins=%d echoes=%d workers=A%d+B%d repo=%s" % (
         args.tier, args.seed, n_runs, len(twin_seeds), len(echo_seeds), na, nb, args.repo), flush=True)
     agg = Aggregate()
@@ -289,9 +310,9 @@ def batch(args):
         n_env_divergent = len(env_violations)
         for s in (env_violations[:4] + nondeterministic[:2]):
             role = "B" if s in env_violations else "E"
-            hs = [agg.hashseeds["A"].get(s) or 1001, agg.hashseeds[role].get(s) or 7001]
-            # re-run in two fresh interpreters with exactly the hash seeds that disagreed
-            p2 = Pool(args.repo, {"X": (1, hs[0]), "Y": (1, hs[1])})
+            hs = [agg.hashseeds["A"].get(s) or env_of(1001), agg.hashseeds[role].get(s) or env_of(7001, TWIN_PROFILE)]
+            # re-run in two fresh interpreters in exactly the two environments that disagreed
+            p2 = Pool(args.repo, {"X": group_for_env(hs[0]), "Y": group_for_env(hs[1])})
             try:
                 ta = p2.submit({"t": "run", "seed": s, "cfg": tier["cfg"], "trace": True}, "X").result()
                 tb = p2.submit({"t": "run", "seed": s, "cfg": tier["cfg"], "trace": True}, "Y").result()
@@ -308,6 +329,11 @@ def batch(args):
                    "echo": hs[0] == hs[1], "n_divergent": n_env_divergent}
             if what == "value" and hs[0] != hs[1] and not args.no_minimise and len(i5) < 2:
                 rec["minimised"] = minimise_i5(args.repo, hs, ta["scenario"], ta["ops"][: idx + 1] if idx >= 0 else ta["ops"])
+            if hs[0] != hs[1] and len(i5) < 3:
+                m = rec.get("minimised")
+                rec["attribution"] = attribute_env(
+                    args.repo, hs, m["scenario"] if m else ta["scenario"],
+                    m["ops"] if m else (ta["ops"][: idx + 1] if idx >= 0 else ta["ops"]))
             i5.append(rec)
 
         rc, lines = judge(args, agg, i5, pool, tier, nb, harness_problem)
@@ -441,7 +467,8 @@ def judge(args, agg, i5, pool, tier, nb, harness_problem):
                 "format": 1, "property": "C18", "class": "I5",
                 "scenario": mini["scenario"] if mini else d["a"]["scenario"],
                 "ops": mini["ops"] if mini else (d["a"]["ops"][: d["index"] + 1] if d["index"] >= 0 else d["a"]["ops"]),
-                "hashseeds": d["hashseeds"],
+                "envs": d["hashseeds"],
+                "attribution": d.get("attribution"),
                 "violation": {"invariant": "I5", "step": d["index"], "op": ea.get("op"),
                               "observed": [ea.get("d"), ea.get("s"), ea.get("x")], "expected": [eb.get("d"), eb.get("s"), eb.get("x")],
                               "kind": "value-vs-value", "family": "", "sid": None, "path": (ea.get("op") or [None] * 4)[-1]},
@@ -451,8 +478,10 @@ def judge(args, agg, i5, pool, tier, nb, harness_problem):
                 "occurrences_in_batch": d.get("n_divergent"),
             }, f, indent=1)
         lines.append("VIOLATION property=C18 replay=%s" % path)
-        lines.append("  I5 environment dependence (hash seeds %r, %s divergent twins) at %s: %s | %s" % (
-            d["hashseeds"], d.get("n_divergent"), json.dumps(ea.get("op")), ea.get("s", "")[:90], eb.get("s", "")[:90]))
+        lines.append("  I5 environment dependence (%r vs %r; reproduces when only this differs: %s; %s divergent twins) at %s: %s | %s" % (
+            d["hashseeds"][0], d["hashseeds"][1],
+            [k for k, v in (d.get("attribution") or {}).items() if v] or "undetermined",
+            d.get("n_divergent"), json.dumps(ea.get("op")), ea.get("s", "")[:90], eb.get("s", "")[:90]))
     if agg.harness_errors and rc == 0:
         harness_problem = harness_problem or "%d runs ended in a harness error, e.g. seed %s: %s" % (
             sum(v for k, v in agg.n.items() if k.endswith("harness_error")),
